@@ -114,15 +114,20 @@ CLAIMED = {
         'force_orthotropic_laminate option.',
    technique='Lean 4 proof over regenerated models + pairwise implementation comparison', ref='4/C14'),
  'C15': dict(
-   text='Decided by proof only in its algebraic half: the dof map is injective and embeds the (m,n) amplitudes into every larger (m\',n\') '
-        'model, the REGENERATED entry functions have no m, n argument (so the smaller matrices are principal sub-matrices of the larger), and '
-        'min-max values over nested trial spaces are antitone for ANY Rayleigh quotient, any k (Lean: minmax_monotone, minmax_chain). That the '
-        'solvers return the min-max values is Courant-Fischer (assumed, not in Mathlib). The closed-form clause (never below / converging to the '
-        'double-sine buckling loads and frequencies) is a statement about the continuum problem and is NOT decided by proof: it is evaluated '
-        'numerically on the implementation (sub-matrix embedding, monotonicity of the lowest multipliers/frequencies under added terms, closed '
-        'forms with rotary inertia) as a test.',
-   note='PARTIAL: only the monotonicity half is a theorem; Courant-Fischer assumed; closed-form clause exploration-level (see DESIGN.md section 6).',
-   technique='Lean 4 proof (min-max inclusion, index embedding) over regenerated model + numeric evaluation of the continuum clause', ref='4/C15'),
+   text='Decided by proof in its monotonicity half, now WITHOUT assumed mathematics: the dof map is injective and embeds the (m,n) amplitudes into every larger (m\',n\') '
+        'model; the REGENERATED entry functions have no m, n argument, so the finalized (m,n) matrices are principal sub-matrices of the larger ones '
+        '(nested_principal_submatrix, on the whole-matrix model of C02-C04); COURANT-FISCHER is proved (Spec/CourantFischer.lean: the ascending eigenvalues of a real '
+        'symmetric matrix are the min-max values of the Rayleigh quotient; the same for pencils K v = lambda M v with M positive definite through a whitening congruence, '
+        'and for buckling pencils (K + lambda KG) v = 0 with K positive definite and KG indefinite; the lists are exactly the spectra) and with it one-sided Cauchy '
+        'interlacing for principal sub-matrices / sub-pencils: ritz_eigenvalues_monotone, ritz_frequencies_monotone, ritz_buckling_monotone (k-th smallest frequency / '
+        'positive multiplier of the larger model <= that of the smaller), instantiated on the regenerated plate kernels (plate_frequencies_monotone, plate_buckling_monotone); '
+        'the older min-max monotonicity theorems (minmax_monotone, minmax_chain) stay. The closed-form clause (never below / converging to the double-sine buckling loads '
+        'and frequencies) is a statement about the continuum problem and is NOT decided by proof: it is evaluated numerically on the implementation THROUGH the package\'s analyses '
+        '(Panel.lb / Panel.freq / analysis.lb / analysis.freq, sparse and dense, three unit systems, sweeps on one object, very thin panels with rich bases).',
+   note='PARTIAL: the closed-form / convergence clause is exploration-level (see DESIGN.md section 6); positive definiteness of the larger model\'s mass / stiffness matrix is a '
+        'hypothesis of the monotonicity theorems (the property\'s own premise); the instantiation on regenerated kernels covers the flat plate; that LAPACK / ARPACK return the '
+        'lowest eigenvalues in order is the numerical contract of C05 / C06.',
+   technique='Lean 4 proof (Courant-Fischer, interlacing, index embedding) over regenerated model + numeric evaluation of the continuum clause through the package\'s analyses', ref='4/C15'),
  'C19': dict(
    text='Regenerated Lean models of fkAx/fkAy/fcA (plate, plate_w, cpanel); 14 theorems: each entry equals the by-parts form '
         '-beta*Int(dw_A/dflow w_B) - gamma*Int(w_A w_B) (gamma only in the cylindrical x-flow kernel) resp. -aeromu*Int(w_A w_B), on w only; '
